@@ -62,6 +62,7 @@ def strategy(tier):
         {
             "kind": st.sampled_from(OPS + ["bset", "bdelete"]),
             "abandon": st.sampled_from([False, False, True]),
+            "repoint": st.sampled_from([False, False, False, True]),
             "key": keyspecs(tier, near_weight=9),
             "val": valspecs(tier),
             "cut": st.one_of(st.none(), st.integers(0, 80)),
@@ -296,13 +297,27 @@ def run_case(case):
         deep_mutation_failure = False
         result = None
         for attempt in range(n_hidden + 2):
+            call_root = bytes(t.root_hash)
+            if op.get("repoint") and kind in ("get", "exists") and attempt == 0:
+                # on the miss the database calls back and the callback points the trie elsewhere
+                # for a moment: the report must still name the root the call was made against
+                def on_miss(_key, _t=t, _root=call_root):
+                    _t.root_hash = b"\x11" * 32
+                lossy.on_miss = on_miss
+                info.label("root-repointed-during-failing-call")
             before = _snapshot(t, lossy)
             r = impl("only-missing-node-errors", fn,
                      allowed=(MissingTrieNode, MissingTraversalNode, TraversedPartialPath))
+            lossy.on_miss = None  # the callback is armed for this one call only
+            if bytes(t.root_hash) != call_root and kind in ("get", "exists"):
+                t.root_hash = call_root  # undo the callback's re-pointing
             if not (isinstance(r, Raised) and isinstance(r.exc, (MissingTrieNode, MissingTraversalNode))):
                 result = r
                 break
             exc = r.exc
+            if bytes(t.root_hash) != call_root:
+                t.root_hash = call_root  # undo the callback's re-pointing
+            lossy.on_miss = None
             h = as_bytes("report-names-a-hash", exc.missing_node_hash, "missing_node_hash of the report")
             # ---- the report tells the truth ------------------------------------------
             expect("reported-node-really-absent", h in lossy.hidden,
@@ -312,7 +327,7 @@ def run_case(case):
             if kind in ("get", "exists", "set", "delete", "sete"):
                 expect("report-type", isinstance(exc, MissingTrieNode),
                        f"{kind} raised {type(exc).__name__} instead of MissingTrieNode")
-                expect_eq("report-root-hash", as_bytes("report-root-hash", exc.root_hash, "root_hash of the report"), bytes(t.root_hash), "root_hash of the report")
+                expect_eq("report-root-hash", as_bytes("report-root-hash", exc.root_hash, "root_hash of the report"), call_root, "root_hash of the report")
                 expect_eq("report-requested-key", as_bytes("report-requested-key", exc.requested_key, "requested_key of the report"), key, "requested_key of the report")
             else:
                 expect("report-type", isinstance(exc, MissingTraversalNode),
